@@ -252,7 +252,7 @@ func soakC16(c *core.Ctx) {
 func soakC17(c *core.Ctx) {
 	shapes := [][]int{{3}, {2, 2}, {4}, {1, 3}, {}}
 	soak(c, "sgd", len(shapes), func(k, i int) core.Verdict {
-		v := c17UpdateCase(shapes[i], c17LRs[k%len(c17LRs)], k%3)
+		v := c17UpdateCase(shapes[i], c17LRs[k%len(c17LRs)], k%5)
 		if !v.OK && !v.Skip {
 			v.Detail = fmt.Sprintf("weight shape %v: %s", shapes[i], v.Detail)
 		}
